@@ -2,7 +2,7 @@
   Model of `twosigma.memento.storage_base.MemoryCache` (storage_base.py:1068-1291).
 
   Mirrors, statement by statement:
-    _mark_used, _evict, get_mementos, read_result, is_memoized, _put_ref, put,
+    _mark_used, _evict, get_mementos, read_result, is_memoized, is_all_memoized, _put_ref, put,
     forget_call, forget_everything, forget_function.
 
   Core-only (no Mathlib) so that the driver can be compiled.
@@ -89,6 +89,15 @@ def isMemoized (s : State) (k : Key) : State × Bool :=
   if hasKey s.cache k then (markUsed s k, true)
   else (s, (refLookup s.refs k).isSome)
 
+/-- `is_all_memoized(fns)` = `all([is_memoized(x) for x in fns])`: the list is built before `all` looks at it, so
+    *every* queried key that is resident is marked used, also those listed after a missing one -/
+def isAllMemoized (s : State) : List Key → State × Bool
+  | [] => (s, true)
+  | k :: ks =>
+    let r := isMemoized s k
+    let rs := isAllMemoized r.1 ks
+    (rs.1, r.2 && rs.2)
+
 /-- `_put_ref`: `TypeError` (not weak-referenceable) is swallowed; an older reference for the
     key is dropped in that case (so a stale object can never be served for the key). -/
 def putRef (s : State) (k : Key) (v : Nat) (weakrefable : Bool) : State :=
@@ -153,6 +162,7 @@ inductive Op
   | getm (ks : List Key)
   | read (k : Key)
   | ismem (k : Key)
+  | allmem (ks : List Key)
   | fcall (k : Key)
   | ffn (fn : Nat)
   | fall
@@ -173,6 +183,7 @@ def stepRaw (s : State) : Op → State × Out
   | .getm ks => (s, .mems (getMementos s ks))
   | .read k => let (s', r) := readResult s k; (s', .read r)
   | .ismem k => let (s', b) := isMemoized s k; (s', .bool b)
+  | .allmem ks => let (s', b) := isAllMemoized s ks; (s', .bool b)
   | .fcall k => (forgetCall s k, .unit)
   | .ffn fn => (forgetFunction s fn, .unit)
   | .fall => (forgetEverything s, .unit)
